@@ -51,4 +51,42 @@ example : CollDemo.ok_obj_elements_none.1 = true := by decide +kernel
 example : CollDemo.ok_inline_lists_empty.1 = true := by decide +kernel
 example : CollDemo.ok_inline_and_shared.1 = true := by decide +kernel
 
+/-! ### reserved names: instances with a feature declared as `self` / `type` (`Spec/RoundTripCollCheck.lean`, `ResDemo`)
+
+The test accepts them (evaluated by the kernel, the writer's `String.ofList f.name.toList.dropLast` included), hence
+the hypotheses of `xmi_roundtrip_coll` hold on instances whose type has a reserved feature: a primitive one written as
+the attribute `self`, a StringArray written as child elements `type`, a reference, a shared FSArray. -/
+
+theorem resDemo_applies_self_prim :
+    collAppliesB CollDemo.K (ResDemo.resTs "n" "self_") [CollDemo.cas] 0 (ResDemo.resHp "n" "self_") = true := by
+  decide +kernel
+
+theorem resDemo_applies_type_kids :
+    collAppliesB CollDemo.K (ResDemo.resTs "sa" "type_") [CollDemo.cas] 0 (ResDemo.resHp "sa" "type_") = true := by
+  decide +kernel
+
+example : collAppliesB CollDemo.K (ResDemo.resTs "next" "type_") [CollDemo.cas] 0 (ResDemo.resHp "next" "type_") = true := by
+  decide +kernel
+
+/-- all hypotheses of `xmi_roundtrip_coll` hold on an instance with the reserved feature `type_` (a StringArray,
+    written as child elements `type`) -/
+theorem resDemo_hyps :
+    ∃ (c : Cas) (doc : XDoc) (st : Traverse.St), [CollDemo.cas][0]? = some c ∧
+      saveXmi CollDemo.K (ResDemo.resTs "sa" "type_") [CollDemo.cas] 0 (ResDemo.resHp "sa" "type_") = .ok (doc, st) ∧
+      RTWf c (ResDemo.resHp "sa" "type_") ∧ NullOk (ResDemo.resTs "sa" "type_") ∧
+      (∀ q ∈ st.allFs, CollFs CollDemo.K (ResDemo.resTs "sa" "type_") c 0 st.heap q.2) ∧
+      (∀ q ∈ st.allFs, ∀ nv ∈ c.views, q.1 ≠ nv.2.sofa.xid) ∧
+      (∀ nv ∈ c.views, ∀ e ∈ Index.all nv.2.idx, slot st.heap e.oid "sofa" ≠ some .none) ∧
+      MembersOk c st.heap :=
+  collAppliesB_hyps _ _ _ _ _ resDemo_applies_type_kids
+
+/-- the flat test (`rtAppliesB`, hypotheses of `xmi_roundtrip_flat`) accepts the flat instance whose type has the two
+    reserved features `self_` (integer) and `type_` (reference) -/
+theorem resDemo_flat_applies : rtAppliesB CollDemo.K ResDemo.flatTs [ResDemo.flatCas] 0 ResDemo.flatHp = true := by
+  decide +kernel
+
+/-- the type of that instance does have a reserved feature -/
+example : ((TS.find? (ResDemo.resTs "sa" "type_") "x.Doc").map
+    (fun t => (TS.allFeatures t).any (fun f => f.reserved && f.name == "type_"))) = some true := by decide +kernel
+
 end Cassis.Xmi
